@@ -23,8 +23,31 @@ ASSUMPTIONS = ["one-shot iterators, dicts, sets and bytes are outside the stated
 _OBJ = [object() for _ in range(3)]
 
 
+class AnyModel(__import__("ECAgent.Core", fromlist=["Model"]).Model):
+    """a model that takes whatever parameters it is given and finishes at once (for the experiments run on a list between builds)"""
+    def __init__(self, **kw):
+        super().__init__()
+        self.complete()
+
+
+def any_score(model):
+    return 0
+
+
+class Steps:
+    """a re-iterable collection that is not a sequence: it can be iterated any number of times (__iter__) but has no len() and no
+    indexing - an Iterable in the sense of the documentation all the same"""
+    def __init__(self, items):
+        self.items = list(items)
+
+    def __iter__(self):
+        return iter(list(self.items))
+
+
 def make_value(spec):
     k = spec["k"]
+    if k == "steps":
+        return Steps(spec["v"])
     if k == "scalar":
         return spec["v"]
     if k == "obj":
@@ -74,6 +97,8 @@ def elements(val):
     """the values a declared parameter stands for (independent of ECAgent: by index, never by iterating like the code does)"""
     if isinstance(val, str):
         return [val]
+    if isinstance(val, Steps):
+        return list(val.items)
     if isinstance(val, (list, tuple, range)):
         return [val[i] for i in range(len(val))]
     if isinstance(val, np.ndarray) and val.ndim >= 1:
@@ -240,6 +265,19 @@ def run_case(case):
             else:
                 expect_raises("unknown-remove-keyerror", KeyError, pl.remove_parameter, "\x00never-declared")
                 labels.add("unknown-remove-rejected")
+        elif op["op"] == "use":
+            # the list is used for what it is meant for between two builds: a serial search and a batch run over it. Running
+            # experiments over a list does not change what it builds
+            from ECAgent.Batching import batch_run, grid_search
+            prod = product(decl)
+            if not (1 <= len(prod) <= 24) or any(n in ("records", "score") for n in names):
+                continue
+            try:
+                grid_search(AnyModel, pl, any_score, max_timesteps=1)
+                batch_run(AnyModel, pl, max_timesteps=1)
+            except Exception as e:
+                raise Violation("experiment-raised", f"{where}: grid_search / batch_run over the list raised {type(e).__name__}: {e}")
+            labels.add("experiments-run-on-the-list")
         elif op["op"] == "bad_name":
             bad = {"int": 3, "none": None, "tuple": ("a",), "bytes": b"a"}[op.get("kind", "int")]
             expect_raises("nonstr-name-attributeerror", AttributeError, pl.add_parameter, bad, [1, 2])
@@ -281,13 +319,15 @@ def strategy(tier):
                   st.lists(st.tuples(st.sampled_from(["list", "dict", "set", "array", "tuple", "plain"]), st.lists(st.integers(0, 3), max_size=3)).map(list), max_size=3),
                   st.sampled_from(["list", "tuple"])),
         st.builds(lambda v: {"k": "range", "v": v}, st.integers(0, 4)),
+        st.builds(lambda v: {"k": "steps", "v": v}, st.lists(st.integers(0, 3), max_size=3)),
         st.builds(lambda v: {"k": "array", "v": v}, st.lists(num, max_size=4)),
     )
     name = wone_of(st.sampled_from(["a", "b", "c", "d", "", "é", "records", "a b"]), st.text(max_size=3))
     op = wone_of(st.fixed_dictionaries({"op": st.just("add"), "name": name, "val": val}),
                    st.fixed_dictionaries({"op": st.just("add"), "name": name, "val": val}),
                    st.fixed_dictionaries({"op": st.just("remove"), "i": st.integers(0, 5), "unknown": st.sampled_from([False, False, True])}),
-                   st.fixed_dictionaries({"op": st.just("bad_name"), "kind": st.sampled_from(["int", "none", "tuple", "bytes"])}))
+                   st.fixed_dictionaries({"op": st.just("bad_name"), "kind": st.sampled_from(["int", "none", "tuple", "bytes"])}),
+                   st.just({"op": "use"}))
     ctor = wone_of(st.none(), st.lists(st.tuples(name, val).map(list), max_size=4))
     redeclare = st.builds(lambda nm, v1, v2, mid: {"ctor": None, "ctor_bad_key": False, "verify": "end-after-first",
                                                    "ops": [{"op": "add", "name": nm, "val": v1}, {"op": "add", "name": nm + "2", "val": {"k": "list", "v": [1, 2]}}]
